@@ -16,13 +16,13 @@ ALL_GROUPS = ["SO2", "SE2", "SO3", "SE3", "SE_2_3", "R1", "R3", "R5"]        # g
 
 PROPS = {
     "C01": dict(l1_ops=["compose", "inverse", "act", "transform", "rotation", "adj"], l2="C01",
-                n_l1=(150, 3000), n_l2=(40, 1500)),
-    "C02": dict(l1_ops=["exp", "hat"], l2="C02", n_l1=(300, 6000), n_l2=(60, 3000)),
-    "C03": dict(l1_ops=["log", "exp"], l2="C03", n_l1=(300, 6000), n_l2=(80, 3000)),
+                n_l1=(300, 6000), n_l2=(1200, 40000)),
+    "C02": dict(l1_ops=["exp", "hat"], l2="C02", n_l1=(400, 8000), n_l2=(600, 20000)),
+    "C03": dict(l1_ops=["log", "exp"], l2="C03", n_l1=(400, 8000), n_l2=(800, 20000)),
     "C05": dict(l1_ops=["exp", "log", "inverse", "compose", "between", "rplus", "lplus", "rminus",
                         "lminus", "act"], l2="C05", n_l1=(120, 2500), n_l2=(40, 800), l1_masks=True),
     "C06": dict(l1_ops=["rjac", "ljac", "rjacinv", "ljacinv", "smallAdj", "adj"], l2="C06",
-                n_l1=(200, 4000), n_l2=(60, 2000)),
+                n_l1=(300, 6000), n_l2=(240, 6000)),
 }
 
 PROPS["C07"] = dict(l1_ops=["hat", "vee", "generator", "innerWeights", "bracket", "inner", "sqwnorm", "wnorm"],
